@@ -73,6 +73,8 @@ func (c *Ctx) writerLeaves(name string) ([]numberLeaf, *ssa.Function, string) {
 	in := c.Interp()
 	h := c.newEncHooks(in)
 	h.enter[name] = true
+	// a number writer may hand its short forms to the natural-number writer: the bytes are what counts
+	h.enter["encodeNatural"] = true
 	res, mem, _ := in.Run(fn, nil, nil)
 	if mem == nil {
 		return nil, fn, "does not return"
